@@ -52,10 +52,12 @@ class Bool(V):
 
 
 class Float(V):
-    __slots__ = ('e',)
+    """src: (BitVec, signed) when the value is the exact image of an integer under an IntToFloat cast"""
+    __slots__ = ('e', 'src')
 
-    def __init__(self, e):
+    def __init__(self, e, src=None):
         self.e = e
+        self.src = src
 
     def __repr__(self):
         return 'Float(%s)' % self.e
